@@ -200,6 +200,13 @@ type grpcPlan struct {
 	Reset    []bool          // the connection is reset while the call is in flight
 	Timeout  time.Duration
 	Shared   bool
+	// Assert (scenario only): the assert/response postprocessor of call i: 0 none, 1 payload contains the entry's name,
+	// 2 status_code 200, 3 both, 4 payload contains a string that is never there. A failing assertion ends the
+	// invocation: the calls after it are not made
+	Assert []int
+	// RefuseFrom > 0: every connection of the k-th and later gRPC clients (in the order the guns dial) is refused:
+	// the target is up for warm-up and the first instances, down for the instances that come after
+	RefuseFrom int
 }
 
 func genGRPCPlan(r *R, faults bool) grpcPlan {
@@ -220,18 +227,30 @@ func genGRPCPlan(r *R, faults bool) grpcPlan {
 		}
 		p.Slow = append(p.Slow, slow)
 		p.Reset = append(p.Reset, reset)
+		a := 0
+		if p.Scenario && w.Draw(3) == 0 {
+			a = 1 + w.Draw(4)
+		}
+		p.Assert = append(p.Assert, a)
+	}
+	if faults && f.Draw(6) == 0 {
+		p.RefuseFrom = 2 + f.Draw(p.Inst+1)
 	}
 	return p
 }
 
 type grpcOutcome struct {
-	Plan    grpcPlan
-	Res     *httpPoolResult
-	Calls   []grpcCall
-	TagOf   []string // expected sample tag per entry
-	Expect  []int    // expected proto code per entry
-	Fired   int
-	MayFail []bool // entries whose call may fail for transport reasons (reset): 503/Unavailable-like or the scripted code
+	Plan   grpcPlan
+	Res    *httpPoolResult
+	Calls  []grpcCall
+	TagOf  []string // expected sample tag per entry
+	Expect []int    // expected proto code per entry
+	Fired  int
+	// Stop: index of the first call whose assertion fails given the scripted statuses (len(entries)-1 when none does);
+	// StopCertain: no reset makes a call's outcome uncertain
+	Stop        int
+	StopCertain bool
+	MayFail     []bool // entries whose call may fail for transport reasons (reset): 503/Unavailable-like or the scripted code
 }
 
 // runGRPCPlan fires the entries (grpc/json ammo, or a gRPC scenario with one call per entry) at the scripted server.
@@ -245,6 +264,16 @@ func runGRPCPlan(r *R, p grpcPlan) *grpcOutcome {
 		b.WriteString("requests: [ ]\ncalls:\n")
 		for i := 0; i < p.Entries; i++ {
 			fmt.Fprintf(&b, "  - name: c%d\n    tag: tg%d\n    call: target.TargetService.Hello\n    metadata:\n      marker: m%d\n    payload: '{\"name\": \"n%d\"}'\n", i, i, i, i)
+			switch p.Assert[i] {
+			case 1:
+				fmt.Fprintf(&b, "    postprocessors:\n      - type: assert/response\n        payload: [\"n%d\"]\n", i)
+			case 2:
+				b.WriteString("    postprocessors:\n      - type: assert/response\n        status_code: 200\n")
+			case 3:
+				fmt.Fprintf(&b, "    postprocessors:\n      - type: assert/response\n        payload: [\"Hello\", \"n%d\"]\n        status_code: 200\n", i)
+			case 4:
+				b.WriteString("    postprocessors:\n      - type: assert/response\n        payload: [\"never-there\"]\n")
+			}
 			out.TagOf = append(out.TagOf, fmt.Sprintf("sc.tg%d", i))
 		}
 		// one scenario running every call in order; a failing call does not stop a gRPC scenario unless a postprocessor fails
@@ -277,9 +306,46 @@ func runGRPCPlan(r *R, p grpcPlan) *grpcOutcome {
 		out.MayFail = append(out.MayFail, p.Reset[i])
 	}
 	out.Fired = p.Entries * p.Passes
+	out.Stop, out.StopCertain = p.Entries-1, true
+	for i := 0; i < p.Entries; i++ {
+		if p.Reset[i] {
+			out.StopCertain = false
+		}
+		if p.RefuseFrom > 0 {
+			// which instance shoots which entry is a scheduling matter: any call may find its client without a connection
+			out.StopCertain = false
+			out.MayFail[i] = true
+		}
+	}
+	if p.Scenario {
+		for i := 0; i < p.Entries; i++ {
+			ok := out.Expect[i] == 200
+			fails := false
+			switch p.Assert[i] {
+			case 1, 2, 3:
+				fails = !ok // no answer message / another status
+			case 4:
+				fails = true
+			}
+			if fails {
+				out.Stop = i
+				break
+			}
+		}
+		out.Fired = (out.Stop + 1) * p.Passes
+	}
 	var tgt *grpcTarget
 	out.Res = runHTTPPool(r, httpPoolSpec{Ammo: ammo, Gun: gun, Instances: p.Inst, Tokens: out.Fired + 2, Files: files, Horizon: time.Hour},
-		func(nw *simnet.Net) { nw.Latency = 500 * time.Microsecond },
+		func(nw *simnet.Net) {
+			nw.Latency = 500 * time.Microsecond
+			if p.RefuseFrom > 0 {
+				nw.Plan = func(idx int, addr string) simnet.ConnPlan {
+					cp := simnet.NoPlan()
+					cp.Refuse = idx >= 1000+p.RefuseFrom*8
+					return cp
+				}
+			}
+		},
 		func(nw *simnet.Net) {
 			tgt = startGRPCTarget(nw, target, func(n int, c *grpcCall) grpcAnswer {
 				i := -1
@@ -302,6 +368,9 @@ func runGRPCPlan(r *R, p grpcPlan) *grpcOutcome {
 	if tgt != nil {
 		out.Calls = tgt.Calls()
 	}
+	if p.RefuseFrom > 0 {
+		r.Fault("grpc:later-clients-refused", out.Res.NetFired["connect-refused"] > 0)
+	}
 	for i := range p.Codes {
 		r.Note("grpc-status:" + p.Codes[i].String())
 		if p.Slow[i] > p.Timeout {
@@ -316,7 +385,7 @@ func runGRPCPlan(r *R, p grpcPlan) *grpcOutcome {
 
 func c10GRPC(r *R) {
 	p := genGRPCPlan(r, r.F.Draw(3) == 0)
-	r.Sample(map[string]any{"mode": "grpc", "scenario": p.Scenario, "entries": p.Entries, "passes": p.Passes, "instances": p.Inst, "codes": fmt.Sprint(p.Codes), "slow": fmt.Sprint(p.Slow), "reset": fmt.Sprint(p.Reset), "timeout": p.Timeout.String()})
+	r.Sample(map[string]any{"mode": "grpc", "scenario": p.Scenario, "entries": p.Entries, "passes": p.Passes, "instances": p.Inst, "codes": fmt.Sprint(p.Codes), "slow": fmt.Sprint(p.Slow), "reset": fmt.Sprint(p.Reset), "timeout": p.Timeout.String(), "assertions": fmt.Sprint(p.Assert), "refuse_clients_from": p.RefuseFrom})
 	r.NonTrivial()
 	out := runGRPCPlan(r, p)
 	if c20Infra(r, out.Res, "grpc") {
@@ -330,8 +399,17 @@ func c10GRPC(r *R) {
 	for i, t := range out.TagOf {
 		known[t] = true
 		ss := byTag[t]
-		if len(ss) != p.Passes {
-			r.Fail("grpc/sample-count", "entry %d (tag %s, server status %s) produced %d samples in %d passes", i, t, p.Codes[i], len(ss), p.Passes)
+		wantN := p.Passes
+		if i > out.Stop {
+			wantN = 0 // an assertion of an earlier call fails: the invocation ends there
+		}
+		if !out.StopCertain && p.Scenario {
+			// a reset connection makes the statuses, hence the assertions, of this run uncertain: bounds only
+			if len(ss) > p.Passes {
+				r.Fail("grpc/sample-count", "entry %d (tag %s) produced %d samples in %d passes", i, t, len(ss), p.Passes)
+			}
+		} else if len(ss) != wantN {
+			r.Fail("grpc/sample-count", "entry %d (tag %s, server status %s) produced %d samples in %d passes, want %d (assertions %v: the invocation ends after call %d)", i, t, p.Codes[i], len(ss), p.Passes, wantN, p.Assert, out.Stop)
 			continue
 		}
 		for _, s := range ss {
